@@ -25,6 +25,7 @@ func (r Result) String() string { return [...]string{"unsat", "sat", "unknown"}[
 type Solver struct {
 	cmd     *exec.Cmd
 	in      io.WriteCloser
+	w       *bufio.Writer
 	out     *bufio.Reader
 	defined []map[int]bool // per scope: term IDs defined
 	declUF  []map[string]bool
@@ -106,7 +107,7 @@ func New(bin string, args []string, timeoutMs int) (*Solver, error) {
 	if err := cmd.Start(); err != nil {
 		return nil, err
 	}
-	s := &Solver{cmd: cmd, in: in, out: bufio.NewReaderSize(out, 1<<16), timeout: timeoutMs}
+	s := &Solver{cmd: cmd, in: in, w: bufio.NewWriterSize(in, 1<<16), out: bufio.NewReaderSize(out, 1<<16), timeout: timeoutMs}
 	s.defined = []map[int]bool{{}}
 	s.declUF = []map[string]bool{{}}
 	s.send("(set-option :print-success false)")
@@ -117,6 +118,7 @@ func New(bin string, args []string, timeoutMs int) (*Solver, error) {
 }
 
 func (s *Solver) Close() {
+	s.w.Flush()
 	s.in.Close()
 	s.cmd.Process.Kill()
 	s.cmd.Wait()
@@ -126,7 +128,8 @@ func (s *Solver) send(line string) {
 	if s.Log != nil {
 		fmt.Fprintln(s.Log, line)
 	}
-	io.WriteString(s.in, line+"\n")
+	s.w.WriteString(line)
+	s.w.WriteByte('\n')
 }
 
 func (s *Solver) isDefined(id int) bool {
@@ -210,6 +213,9 @@ func (s *Solver) Assert(t *term.Term) {
 }
 
 func (s *Solver) readLine() (string, error) {
+	if s.w.Buffered() > 0 {
+		s.w.Flush()
+	}
 	line, err := s.out.ReadString('\n')
 	return strings.TrimSpace(line), err
 }
